@@ -116,6 +116,9 @@ class OutgoingBallsHandler(BallDeviceStateHandler):
                         await self.ball_device.ball_count_handler.end_eject(ball_eject_process, True)
                         continue
 
+                    # the ball came back. end this eject (and release the ball counter) before ejecting it again
+                    await self.ball_device.ball_count_handler.end_eject(ball_eject_process, False)
+
                 if not await self._ejecting(eject_request):
                     return
             else:
